@@ -28,7 +28,7 @@ def worker(unit, emit):
     mod = lib.module(name)
     rnd = random.Random('%s/%s' % (p['seed'], name))
     corp = lib.corpus(name, mod)
-    bases = lib.pick_bases(name, mod, lib.distinct_compact(name, mod, corp), p['bases'], rnd)
+    bases = lib.pick_bases(name, mod, lib.distinct_compact(name, mod, corp), p['bases'], rnd, corpus_items=corp)
     # every documented presentation of the corpus counts too (they differ in separators/case)
     pres = lib.pick(corp, p['pres'], rnd)
     emit.count('modules')
